@@ -43,11 +43,48 @@ package transaction
 //@   trusted
 //@   ensures resp != nil ==> resp.Code != 0
 //@   modifies nothing
-//@ func CalculateCommission
-//@   trusted
-//@   ensures errResp == nil ==> commission != nil && commission.val >= 0
-//@   ensures errResp != nil ==> errResp.Code != 0
+//@ # C27: a commission paid in a custom coin uses the cheaper of the pool route and the bancor-reserve route.
+//@ # The two quotes are abstract (what the quoting helpers return in this state); the choice between them is proved.
+//@ ghost coinIDOf(c CalculateCoin) types.CoinID
+//@ ghost poolOK(sw swap.EditableChecker, c CalculateCoin, amount int) bool
+//@ ghost poolQuote(sw swap.EditableChecker, c CalculateCoin, amount int) int
+//@ ghost reserveOK(c CalculateCoin, amount int) bool
+//@ ghost reserveQuote(c CalculateCoin, amount int) int
+//@ func iface CalculateCoin.ID
+//@   ensures result == coinIDOf(recv)
 //@   modifies nothing
+//@ func iface CalculateCoin.GetFullSymbol
+//@   modifies nothing
+//@ func commissionFromPool
+//@   trusted
+//@   ensures (result1 == nil) == poolOK(swapChecker, coin, commissionInBaseCoin.val)
+//@   ensures result1 == nil ==> result0 != nil && result0.val == poolQuote(swapChecker, coin, commissionInBaseCoin.val) && result0.val > 0
+//@   ensures result1 != nil ==> result1.Code != 0
+//@   modifies nothing
+//@ func commissionFromReserve
+//@   trusted
+//@   ensures (result1 == nil) == reserveOK(gasCoin, commissionInBaseCoin.val)
+//@   ensures result1 == nil ==> result0 != nil && result0.val == reserveQuote(gasCoin, commissionInBaseCoin.val) && result0.val >= 0
+//@   ensures result1 != nil ==> result1.Code != 0
+//@   modifies nothing
+//@ func CalculateCommission
+//@   serves C27
+//@   let amt = commissionInBaseCoin.val
+//@   let pok = poolOK(swapper, gasCoin, amt)
+//@   let rok = reserveOK(gasCoin, amt)
+//@   let pq = poolQuote(swapper, gasCoin, amt)
+//@   let rq = reserveQuote(gasCoin, amt)
+//@   let custom = coinIDOf(gasCoin) != 0 && amt != 0
+//@   requires checkState != nil && checkState.state != nil && checkState.state.Coins != nil && commissionInBaseCoin != nil
+//@   ensures errResp == nil ==> commission != nil && (amt >= 0 ==> commission.val >= 0)
+//@   ensures errResp != nil ==> errResp.Code != 0
+//@   ensures base: coinIDOf(gasCoin) == 0 ==> errResp == nil && commission.val == amt && !poolSwap
+//@   ensures zero: coinIDOf(gasCoin) != 0 && amt == 0 ==> errResp == nil && commission.val == 0 && !poolSwap
+//@   ensures cheaper: custom && pok && rok ==> errResp == nil && commission.val == min(pq, rq) && (poolSwap == (pq <= rq))
+//@   ensures onlypool: custom && pok && !rok ==> errResp == nil && commission.val == pq && poolSwap
+//@   ensures onlyreserve: custom && !pok && rok ==> errResp == nil && commission.val == rq && !poolSwap
+//@   ensures neither: custom && !pok && !rok ==> errResp != nil
+//@   modifies coinsCache
 //@ func CalculateSaleReturnAndCheck
 //@   trusted
 //@   ensures result1 != nil ==> result1.Code != 0
@@ -60,12 +97,13 @@ package transaction
 //@ func iface Data.TxType
 //@   modifies nothing
 //@ func iface Data.CommissionData
-//@   ensures result != nil && result.val >= 0
+//@   ensures result != nil && result.val == typePrice(recv, arg0)
 //@   modifies nothing
 //@ func iface dataCommission.commissionCoin
 //@   modifies nothing
+//@ ghost symbolPrice(d symbolCreator, p *commission.Price) int
 //@ func iface symbolCreator.PayForSymbol
-//@   ensures result != nil && result.val >= 0
+//@   ensures result != nil && result.val >= 0 && result.val == symbolPrice(recv, arg0)
 //@   modifies nothing
 
 //@ # abstract tokens for the modules whose contents RunTx itself never touches
@@ -77,13 +115,20 @@ package transaction
 //@ func iface Data.Run
 //@   let accs = typeis(arg1, "*state.CheckState") ? as(arg1, "*state.CheckState").state.Accounts : as(arg1, "*state.State").Accounts
 //@   requires arg0 != nil && arg2 != nil && arg4 != nil
+//@   let cm = typeis(arg1, "*state.CheckState") ? as(arg1, "*state.CheckState").state.Commission : as(arg1, "*state.State").Commission
+//@   let tbl = curPrices(cm)
+//@   # C27: the price handed to every Run is gas price x (type price + bytes x byte price) when the table is in the base coin
+//@   requires [C27] feeprice: tbl.Coin == 0 ==> arg4.val == arg0.GasPrice * (typePrice(recv, tbl) + (len(arg0.Payload) + len(arg0.ServiceData)) * tbl.PayloadByte.val)
+//@   # C27: an accepted, delivered transaction adds exactly that price to the block's reward pool (proved for the
+//@   # implementations under contract, assumed for the others)
+//@   ensures [C27] rewarded: result.Code == 0 && typeis(arg1, "*state.State") ==> arg2.val == old(arg2.val) + arg4.val
 //@   ensures rejected: result.Code != 0 ==> bal == old(bal) && nonce == old(nonce) && ledgerDelta == old(ledgerDelta) && ledgerVolume == old(ledgerVolume) && coinVolume == old(coinVolume) && coinReserve == old(coinReserve) && swapAbs == old(swapAbs) && otherState == old(otherState) && arg2.val == old(arg2.val)
 //@   ensures checkonly: typeis(arg1, "*state.CheckState") ==> bal == old(bal) && nonce == old(nonce) && ledgerDelta == old(ledgerDelta) && ledgerVolume == old(ledgerVolume) && coinVolume == old(coinVolume) && coinReserve == old(coinReserve) && swapAbs == old(swapAbs) && otherState == old(otherState) && arg2.val == old(arg2.val)
 //@   ensures accepted: result.Code == 0 && typeis(arg1, "*state.State") ==> nonce(accs, senderOf(arg0)) == arg0.Nonce
 //@   modifies bal, nonce, ledgerDelta, ledgerVolume, coinVolume, coinReserve, swapAbs, otherState, arg2.val, accountsCache, coinsCache, commissionCache
 
 //@ func (*ExecutorV3).RunTx
-//@   serves C04 C03 C26
+//@   serves C04 C03 C26 C27
 //@   let tx = decodedTx(e.Executor, rawTx)
 //@   let snd = senderOf(tx)
 //@   let deliver = typeis(context, "*state.State")
@@ -103,4 +148,300 @@ package transaction
 //@   ensures [C03] failedbalances: result.Code != 0 ==> select(bal, accs) == store(select(old(bal), accs), cc, select(select(bal, accs), cc)) || lateFailure
 //@   loop 1 invariant frame: nonce == old(nonce) && otherState == old(otherState) && select(bal, accs) == store(select(old(bal), accs), cc, select(select(bal, accs), cc))
 //@   loop 1 invariant payer: bal(accs, cc, intruder) >= balance.val
+//@   let cmm = typeis(context, "*state.CheckState") ? as(context, "*state.CheckState").state.Commission : as(context, "*state.State").Commission
+//@   let tbl = curPrices(cmm)
+//@   let fee = tx.GasPrice * (typePrice(tx.decodedData, tbl) + (len(tx.Payload) + len(tx.ServiceData)) * tbl.PayloadByte.val)
+//@   let creates = tx.Type == TypeCreateCoin || tx.Type == TypeCreateToken
+//@   ensures [C27] rewarded: result.Code == 0 && deliver && tbl.Coin == 0 && !creates ==> rewardPool.val == old(rewardPool.val) + old(fee)
+//@   ensures [C27] symbolburned: result.Code == 0 && deliver && tbl.Coin == 0 && creates ==> rewardPool.val == old(rewardPool.val) + old(fee) - old(tx.GasPrice * symbolPrice(tx.decodedData, tbl))
 //@   ensures [C26] chargedonce: deliver && bal != old(bal) ==> nonce(accs, snd) == tx.Nonce
+
+//@ # ---------------------------------------------------------------- price table lookups (C27)
+//@ # the designated price-table entry of every transaction type (table written from the type names, independently of the code)
+//@ func (SendData).CommissionData
+//@   serves C27
+//@   requires price != nil
+//@   ensures entry: result == price.Send
+//@   modifies nothing
+//@ func (BuyCoinData).CommissionData
+//@   serves C27
+//@   requires price != nil
+//@   ensures entry: result == price.BuyBancor
+//@   modifies nothing
+//@ func (SellCoinData).CommissionData
+//@   serves C27
+//@   requires price != nil
+//@   ensures entry: result == price.SellBancor
+//@   modifies nothing
+//@ func (SellAllCoinData).CommissionData
+//@   serves C27
+//@   requires price != nil
+//@   ensures entry: result == price.SellAllBancor
+//@   modifies nothing
+//@ func (CreateMultisigData).CommissionData
+//@   serves C27
+//@   requires price != nil
+//@   ensures entry: result == price.CreateMultisig
+//@   modifies nothing
+//@ func (EditMultisigData).CommissionData
+//@   serves C27
+//@   requires price != nil
+//@   ensures entry: result == price.EditMultisig
+//@   modifies nothing
+//@ func (DeclareCandidacyData).CommissionData
+//@   serves C27
+//@   requires price != nil
+//@   ensures entry: result == price.DeclareCandidacy
+//@   modifies nothing
+//@ func (DelegateDataV260).CommissionData
+//@   serves C27
+//@   requires price != nil
+//@   ensures entry: result == price.Delegate
+//@   modifies nothing
+//@ func (DelegateData).CommissionData
+//@   serves C27
+//@   requires price != nil
+//@   ensures entry: result == price.Delegate
+//@   modifies nothing
+//@ func (UnbondDataV3).CommissionData
+//@   serves C27
+//@   requires price != nil
+//@   ensures entry: result == price.Unbond
+//@   modifies nothing
+//@ func (UnbondDataV260).CommissionData
+//@   serves C27
+//@   requires price != nil
+//@   ensures entry: result == price.Unbond
+//@   modifies nothing
+//@ func (UnbondData).CommissionData
+//@   serves C27
+//@   requires price != nil
+//@   ensures entry: result == price.Unbond
+//@   modifies nothing
+//@ func (RedeemCheckData).CommissionData
+//@   serves C27
+//@   requires price != nil
+//@   ensures entry: result == price.RedeemCheck
+//@   modifies nothing
+//@ func (SetCandidateOnData).CommissionData
+//@   serves C27
+//@   requires price != nil
+//@   ensures entry: result == price.SetCandidateOn
+//@   modifies nothing
+//@ func (SetCandidateOffData).CommissionData
+//@   serves C27
+//@   requires price != nil
+//@   ensures entry: result == price.SetCandidateOff
+//@   modifies nothing
+//@ func (EditCandidateData).CommissionData
+//@   serves C27
+//@   requires price != nil
+//@   ensures entry: result == price.EditCandidate
+//@   modifies nothing
+//@ func (EditCandidateCommission).CommissionData
+//@   serves C27
+//@   requires price != nil
+//@   ensures entry: result == price.EditCandidateCommission
+//@   modifies nothing
+//@ func (EditCandidatePublicKeyData).CommissionData
+//@   serves C27
+//@   requires price != nil
+//@   ensures entry: result == price.EditCandidatePublicKey
+//@   modifies nothing
+//@ func (EditCoinOwnerData).CommissionData
+//@   serves C27
+//@   requires price != nil
+//@   ensures entry: result == price.EditTickerOwner
+//@   modifies nothing
+//@ func (SetHaltBlockData).CommissionData
+//@   serves C27
+//@   requires price != nil
+//@   ensures entry: result == price.SetHaltBlock
+//@   modifies nothing
+//@ func (RecreateCoinData).CommissionData
+//@   serves C27
+//@   requires price != nil
+//@   ensures entry: result == price.RecreateCoin
+//@   modifies nothing
+//@ func (RecreateTokenData).CommissionData
+//@   serves C27
+//@   requires price != nil
+//@   ensures entry: result == price.RecreateToken
+//@   modifies nothing
+//@ func (MintTokenData).CommissionData
+//@   serves C27
+//@   requires price != nil
+//@   ensures entry: result == price.MintToken
+//@   modifies nothing
+//@ func (BurnTokenDataV260).CommissionData
+//@   serves C27
+//@   requires price != nil
+//@   ensures entry: result == price.BurnToken
+//@   modifies nothing
+//@ func (BurnTokenDataV1).CommissionData
+//@   serves C27
+//@   requires price != nil
+//@   ensures entry: result == price.BurnToken
+//@   modifies nothing
+//@ func (CreateSwapPoolData).CommissionData
+//@   serves C27
+//@   requires price != nil
+//@   ensures entry: result == price.CreateSwapPool
+//@   modifies nothing
+//@ func (AddLiquidityDataV260).CommissionData
+//@   serves C27
+//@   requires price != nil
+//@   ensures entry: result == price.AddLiquidity
+//@   modifies nothing
+//@ func (AddLiquidityDataV240).CommissionData
+//@   serves C27
+//@   requires price != nil
+//@   ensures entry: result == price.AddLiquidity
+//@   modifies nothing
+//@ func (AddLiquidityDataV1).CommissionData
+//@   serves C27
+//@   requires price != nil
+//@   ensures entry: result == price.AddLiquidity
+//@   modifies nothing
+//@ func (RemoveLiquidityV240).CommissionData
+//@   serves C27
+//@   requires price != nil
+//@   ensures entry: result == price.RemoveLiquidity
+//@   modifies nothing
+//@ func (RemoveLiquidityV230).CommissionData
+//@   serves C27
+//@   requires price != nil
+//@   ensures entry: result == price.RemoveLiquidity
+//@   modifies nothing
+//@ func (RemoveLiquidityV1).CommissionData
+//@   serves C27
+//@   requires price != nil
+//@   ensures entry: result == price.RemoveLiquidity
+//@   modifies nothing
+//@ func (AddLimitOrderData).CommissionData
+//@   serves C27
+//@   requires price != nil
+//@   ensures entry: result == price.AddLimitOrder
+//@   modifies nothing
+//@ func (RemoveLimitOrderData).CommissionData
+//@   serves C27
+//@   requires price != nil
+//@   ensures entry: result == price.RemoveLimitOrder
+//@   modifies nothing
+//@ func (MoveStakeData).CommissionData
+//@   serves C27
+//@   requires price != nil
+//@   ensures entry: result == price.MoveStake
+//@   modifies nothing
+//@ func (LockData).CommissionData
+//@   serves C27
+//@   requires price != nil
+//@   ensures entry: result == price.Lock
+//@   modifies nothing
+//@ func (LockStakeData).CommissionData
+//@   serves C27
+//@   requires price != nil
+//@   ensures entry: result == price.LockStake
+//@   modifies nothing
+//@ func (VoteUpdateDataV230).CommissionData
+//@   serves C27
+//@   requires price != nil
+//@   ensures entry: result == price.VoteUpdate
+//@   modifies nothing
+//@ func (VoteUpdateDataV1).CommissionData
+//@   serves C27
+//@   requires price != nil
+//@   ensures entry: result == price.VoteUpdate
+//@   modifies nothing
+//@ func (VoteCommissionDataV3).CommissionData
+//@   serves C27
+//@   requires price != nil
+//@   ensures entry: result == price.VoteCommission
+//@   modifies nothing
+//@ func (VoteCommissionDataV250).CommissionData
+//@   serves C27
+//@   requires price != nil
+//@   ensures entry: result == price.VoteCommission
+//@   modifies nothing
+//@ func (VoteCommissionDataV1).CommissionData
+//@   serves C27
+//@   requires price != nil
+//@   ensures entry: result == price.VoteCommission
+//@   modifies nothing
+//@ func (BuySwapPoolDataV260).CommissionData
+//@   serves C27
+//@   requires price != nil && price.BuyPoolBase != nil && price.BuyPoolDelta != nil
+//@   ensures entry: result != nil && result.val == price.BuyPoolBase.val + price.BuyPoolDelta.val * (len(data.Coins) - 2)
+//@   modifies nothing
+//@ func (BuySwapPoolDataV240).CommissionData
+//@   serves C27
+//@   requires price != nil && price.BuyPoolBase != nil && price.BuyPoolDelta != nil
+//@   ensures entry: result != nil && result.val == price.BuyPoolBase.val + price.BuyPoolDelta.val * (len(data.Coins) - 2)
+//@   modifies nothing
+//@ func (BuySwapPoolDataV230).CommissionData
+//@   serves C27
+//@   requires price != nil && price.BuyPoolBase != nil && price.BuyPoolDelta != nil
+//@   ensures entry: result != nil && result.val == price.BuyPoolBase.val + price.BuyPoolDelta.val * (len(data.Coins) - 2)
+//@   modifies nothing
+//@ func (SellSwapPoolDataV260).CommissionData
+//@   serves C27
+//@   requires price != nil && price.SellPoolBase != nil && price.SellPoolDelta != nil
+//@   ensures entry: result != nil && result.val == price.SellPoolBase.val + price.SellPoolDelta.val * (len(data.Coins) - 2)
+//@   modifies nothing
+//@ func (SellSwapPoolDataV240).CommissionData
+//@   serves C27
+//@   requires price != nil && price.SellPoolBase != nil && price.SellPoolDelta != nil
+//@   ensures entry: result != nil && result.val == price.SellPoolBase.val + price.SellPoolDelta.val * (len(data.Coins) - 2)
+//@   modifies nothing
+//@ func (SellSwapPoolDataV230).CommissionData
+//@   serves C27
+//@   requires price != nil && price.SellPoolBase != nil && price.SellPoolDelta != nil
+//@   ensures entry: result != nil && result.val == price.SellPoolBase.val + price.SellPoolDelta.val * (len(data.Coins) - 2)
+//@   modifies nothing
+//@ func (SellAllSwapPoolDataV260).CommissionData
+//@   serves C27
+//@   requires price != nil && price.SellAllPoolBase != nil && price.SellAllPoolDelta != nil
+//@   ensures entry: result != nil && result.val == price.SellAllPoolBase.val + price.SellAllPoolDelta.val * (len(data.Coins) - 2)
+//@   modifies nothing
+//@ func (SellAllSwapPoolDataV240).CommissionData
+//@   serves C27
+//@   requires price != nil && price.SellAllPoolBase != nil && price.SellAllPoolDelta != nil
+//@   ensures entry: result != nil && result.val == price.SellAllPoolBase.val + price.SellAllPoolDelta.val * (len(data.Coins) - 2)
+//@   modifies nothing
+//@ func (SellAllSwapPoolDataV230).CommissionData
+//@   serves C27
+//@   requires price != nil && price.SellAllPoolBase != nil && price.SellAllPoolDelta != nil
+//@   ensures entry: result != nil && result.val == price.SellAllPoolBase.val + price.SellAllPoolDelta.val * (len(data.Coins) - 2)
+//@   modifies nothing
+//@ func (MultisendData).CommissionData
+//@   serves C27
+//@   requires price != nil && price.MultisendBase != nil && price.MultisendDelta != nil
+//@   ensures entry: result != nil && result.val == price.MultisendBase.val + price.MultisendDelta.val * (len(data.List) - 1)
+//@   modifies nothing
+//@ func (CreateCoinData).CommissionData
+//@   serves C27
+//@   requires price != nil && price.CreateCoin != nil && price.CreateTicker3 != nil && price.CreateTicker4 != nil && price.CreateTicker5 != nil && price.CreateTicker6 != nil && price.CreateTicker7to10 != nil
+//@   ensures entry: result != nil && (result.val == price.CreateCoin.val + price.CreateTicker3.val || result.val == price.CreateCoin.val + price.CreateTicker4.val || result.val == price.CreateCoin.val + price.CreateTicker5.val || result.val == price.CreateCoin.val + price.CreateTicker6.val || result.val == price.CreateCoin.val + price.CreateTicker7to10.val)
+//@   modifies nothing
+//@ func (CreateTokenData).CommissionData
+//@   serves C27
+//@   requires price != nil && price.CreateToken != nil && price.CreateTicker3 != nil && price.CreateTicker4 != nil && price.CreateTicker5 != nil && price.CreateTicker6 != nil && price.CreateTicker7to10 != nil
+//@   ensures entry: result != nil && (result.val == price.CreateToken.val + price.CreateTicker3.val || result.val == price.CreateToken.val + price.CreateTicker4.val || result.val == price.CreateToken.val + price.CreateTicker5.val || result.val == price.CreateToken.val + price.CreateTicker6.val || result.val == price.CreateToken.val + price.CreateTicker7to10.val)
+//@   modifies nothing
+
+//@ # commission = gas price x (type price + payload and service-data bytes x byte price)
+//@ # typePrice(d, p): the value d.CommissionData(p) has in the current state; every implementation is proved above to return its
+//@ # designated table entry, Price and RunTx below only name that value
+//@ ghost typePrice(d Data, p *commission.Price) int
+//@ func (*Transaction).Price
+//@   serves C27
+//@   requires tx != nil && price != nil && price.PayloadByte != nil && tx.decodedData != nil
+//@   requires nowrap: len(tx.Payload) + len(tx.ServiceData) <= 9223372036854775807
+//@   ensures formula: result != nil && result.val == typePrice(tx.decodedData, price) + (len(tx.Payload) + len(tx.ServiceData)) * price.PayloadByte.val
+//@   modifies nothing
+//@ func (*Transaction).MulGasPrice
+//@   serves C27
+//@   requires tx != nil && price != nil
+//@   ensures product: result != nil && result.val == tx.GasPrice * price.val && fresh(result)
+//@   ensures sign: price.val >= 0 ==> result.val >= 0
+//@   modifies nothing
